@@ -598,9 +598,19 @@ func runTaint(c *core.Ctx) { runTaintFiltered(c, nil) }
 func runTaintFiltered(c *core.Ctx, keep func(*Sink) bool) {
 	e := originEngine(c)
 	cs := GetCensus(c)
+	// the special-case printers and the helpers they hand part of their work to: function -> the parameter
+	// that holds the printer's error there
 	special := map[*ssa.Function]bool{}
+	specialErr := map[*ssa.Function]*ssa.Parameter{}
 	for _, f := range cs.Specials {
-		special[f] = true
+		if len(f.Params) == 0 {
+			continue
+		}
+		reg := regionOf(f)
+		for _, h := range reg.funcs {
+			special[h] = true
+			specialErr[h] = reg.paramFor(h, f.Params[0])
+		}
 	}
 	counts := map[string]int{}
 	for _, s := range taintSinks(c) {
@@ -611,7 +621,7 @@ func runTaintFiltered(c *core.Ctx, keep func(*Sink) bool) {
 		// the whole-text Safe(err.Error()) of a special-case printer is decided by R-SPECIAL-LEAF
 		if special[s.Fn] && len(s.Fn.Params) > 0 {
 			if call, ok := s.Val.(*ssa.Call); ok && call.Call.IsInvoke() && call.Call.Method.Name() == "Error" {
-				if call.Call.Value == ssa.Value(s.Fn.Params[0]) {
+				if ep := specialErr[s.Fn]; ep != nil && call.Call.Value == ssa.Value(ep) {
 					c.Ob(s.Name, s.Pos, true, "whole error text declared safe: guard decided by R-SPECIAL-LEAF")
 					continue
 				}
